@@ -72,6 +72,56 @@ def exact_hit_probe(rep, quick):
     return n
 
 
+def long_growth_probe(rep, quick, only=None):
+    """Growth has no bound of its own: a target that needs more than 1000 units of the lightest kind is reached -- the last unit is the first
+    whose added mass exceeds the target.  (The masses are those stochastic.py computes, recorded by a proxy around its rdDescriptors.)"""
+    import numpy as np
+    import gbigsmiles
+    import gbigsmiles.stochastic as st
+    from gbigsmiles.stochastic import Stochastic
+
+    class Rec:
+        def __init__(self, orig):
+            self.orig, self.vals = orig, []
+
+        def HeavyAtomMolWt(self, m):
+            v = self.orig.HeavyAtomMolWt(m)
+            self.vals.append(v)
+            return v
+
+        def __getattr__(self, n):
+            return getattr(self.orig, n)
+
+    n = 0
+    for text, T in [("F{[$][$]C[$][$]}|gauss(100, 10)|Cl", 12017.0055)] + ([] if quick else [("C{[>][<]CC[>][<]}|uniform(10, 20)|O", 42100.0)]):
+        ident = {"text": text, "mode": "long_growth", "target": T, "seed": 1}
+        if only is not None and only != text:
+            continue
+        mol = gbigsmiles.Molecule(text)
+        for e in mol._elements:
+            if isinstance(e, Stochastic):
+                e.distribution.draw_mw = (lambda rng=None, T=T: T)
+        rec = Rec(st.rdDescriptors)
+        st.rdDescriptors = rec
+        try:
+            with fw.time_limit(400):
+                g = mol.generate(rng=np.random.default_rng(1))
+        except Exception as e:  # noqa
+            rep.fail("oracle", f"generation towards the target {T} raised {type(e).__name__}: {str(e)[:80]}", ident, expected="a molecule", observed=fw.exc_class(e))
+            continue
+        finally:
+            st.rdDescriptors = rec.orig
+        n += 1
+        added = [v - rec.vals[0] for v in rec.vals[1:]]
+        if not added or not (added[-1] > T) or (len(added) > 1 and added[-2] > T):
+            rep.fail("oracle", f"target {T}: growth ended after {len(added)} unit(s) with the added mass {added[-1] if added else 0.0}"
+                     f"{' which does not exceed the target' if added and not added[-1] > T else ''}", ident, expected="the first unit whose added mass exceeds the target",
+                     observed=f"{len(added)} units, added mass {added[-1] if added else 0.0}")
+        elif not g.fully_generated:
+            rep.fail("oracle", f"target {T}: the molecule of {len(added)} units is not fully generated", ident, expected="fully generated", observed="open descriptors")
+    return n
+
+
 def check(rep):
     coq = fw.coq_check("C07", ["SrcBond", "SrcCore", "SrcGen"])
     quick = rep.tier == "quick"
@@ -108,7 +158,7 @@ def check(rep):
             rep.fail("oracle", b, c.ident(), expected="stop right after the first unit whose added mass exceeds the target", observed=b)
         if c.run.targets:
             distinct.add((c.text, tuple(c.run.picks), tuple(c.run.targets)))
-    stats = {**stats, "exact_hit_probes": exact_hit_probe(rep, quick)}
+    stats = {**stats, "exact_hit_probes": exact_hit_probe(rep, quick), "long_growth_probes": long_growth_probe(rep, quick)}
     rep.coverage.update({"evaluations": len(cases), "molecules_checked": mols, "oracle_undecidable_skipped": skipped, "distinct_nontrivial": len(distinct),
                          "rule": "as C04 plus forced targets per stochastic object: below one unit / negative / n units +- 0.25 unit / 20-45 units; "
                                  "distinct_nontrivial = distinct (string, picks, targets) with at least one stochastic object decided by the oracle",
@@ -134,4 +184,15 @@ def replay(case):
         exact_hit_probe(r, True)
         print("exact-hit probe:", "fails" if r.n else "holds")
         return 1 if r.n else 0
+    if c.get("mode") == "long_growth":
+        class _R2:
+            n = 0
+
+            def fail(self, stage, what, ident, **kw):
+                self.n += 1
+                print("replay:", what)
+        r2 = _R2()
+        long_growth_probe(r2, False, only=c["text"])
+        print("long-growth probe:", "fails" if r2.n else "holds")
+        return 1 if r2.n else 0
     return genrun.replay(case, lambda v, run: genrun.oracle_c07(v, run) or [])
